@@ -518,6 +518,227 @@ theorem lookup_returns_only_written_exec (su : Nat → Nat → Bool) (cfg : Cfg)
   simp only [List.nil_append] at this
   exact get_of_prov _ _ _ this k cf now v rfl hget
 
+-- never rolled back ---------------------------------------------------------------------------------
+
+/-- a `New` item for a key the policy already charges leaves the store alone (the policy re-charges in
+place or refuses; nothing is admitted, nothing evicted) -/
+theorem handleNew_charged_store (c : Cache) (su : Nat → Nat → Bool) (est : Nat → Int)
+    (refills : List (List (Nat × Int))) (k cf : Nat) (cost : Int) (v : Nat) (exp : Time)
+    (hinv : c.lfu.Inv) (hch : (c.lfu.costs.get k).isSome = true) :
+    (c.handleItem su est refills (Item.new k cf cost v exp)).store = c.store := by
+  have sp := policyAdd_spec c.lfu est k (c.internalCost cost) refills hinv
+  have hR : (policyAdd c.lfu est k (c.internalCost cost) refills).added = false ∧
+      (policyAdd c.lfu est k (c.internalCost cost) refills).victims = none := by
+    by_cases hbig : c.internalCost cost > c.lfu.maxCost
+    · exact ⟨(sp.oversize hbig).1, (sp.oversize hbig).2.2⟩
+    · cases hg : c.lfu.costs.get k with
+      | none => simp [hg] at hch
+      | some prev =>
+        have := sp.update (by omega) ⟨prev, hg⟩
+        exact ⟨this.1, this.2.1⟩
+  simp only [Cache.handleItem, hR.1, hR.2, Bool.false_eq_true, if_false]
+  simp
+
+/-- **never rolled back**: over every step of every actor, the value of a key that stays resident
+changes only when that very step is a client write to the key — an `insert` (update in place) or a
+write through `get_mut` — and then it becomes the value that call wrote. The processor (stale queued
+inserts included), the sweep, evictions of other keys, clears and the workers never put another value
+under a resident key. (`Inv06` — every resident entry is charged — holds in every reachable state
+while the processor lives: C06.) -/
+theorem resident_value_changes_only_by_client_write (su : Nat → Nat → Bool) (c c' : Cache) (a : Act)
+    (hs : c.step su a = some c') (hinv : Inv06 c) (k : Nat) (e e' : Entry)
+    (he : c.store.items.get k = some e) (he' : c'.store.items.get k = some e') (hne : e'.val ≠ e.val) :
+    (∃ cf v cost ttl now coster only, a = Act.insert k cf v cost ttl now coster only ∧ e'.val = v) ∨
+    (∃ cf now v, a = Act.getMut k cf now v ∧ e'.val = v) := by
+  -- if the entry of `k` is literally the old one, the value did not change
+  have same : c'.store.items.get k = some e → False := by
+    intro h; rw [h] at he'; cases he'; exact hne rfl
+  have keep : (c'.store.items.get k = some e' → c.store.items.get k = some e') → False := by
+    intro h; have := h he'; rw [this] at he; cases he; exact hne rfl
+  cases a with
+  | insert k' cf v cost ttl now coster only =>
+    simp only [Cache.step, Option.some.injEq] at hs; subst hs
+    have hstore : ∀ j x, (c.store.tryUpdate su k' v cf { d := ttl, created := now }).1.items.get j = some x →
+        c.store.items.get j = some x ∨ (j = k' ∧ x.val = v) := by
+      intro j x hjx
+      unfold Store.tryUpdate at hjx
+      cases hg : c.store.items.get k' with
+      | none => simp only [hg] at hjx; left; exact hjx
+      | some e0 =>
+        simp only [hg] at hjx
+        split at hjx
+        · left; exact hjx
+        · split at hjx
+          · left; exact hjx
+          · simp only [KMap.get_set] at hjx
+            split at hjx
+            · right; rename_i hjk; exact ⟨hjk, by cases hjx; rfl⟩
+            · left; exact hjx
+    have key : c.store.items.get k = some e' ∨ (k = k' ∧ e'.val = v) := by
+      unfold Cache.insert at he'
+      split at he'
+      · left; exact he'
+      · unfold Cache.insertBody at he'
+        simp only [] at he'
+        split at he'
+        · left; exact he'
+        · split at he'
+          · split at he' <;> exact hstore k e' (by simpa using he')
+          · split at he'
+            · left; exact he'
+            · split at he'
+              · left; exact he'
+              · left; simpa using he'
+    rcases key with h | ⟨h1, h2⟩
+    · exact absurd (fun _ => h) (fun f => keep f)
+    · subst h1; left; exact ⟨cf, v, cost, ttl, now, coster, only, rfl, h2⟩
+  | get k' cf now =>
+    simp only [Cache.step, Option.some.injEq] at hs; subst hs
+    exfalso; apply keep; intro h
+    unfold Cache.get at h
+    split at h
+    · exact h
+    · simp only [] at h; split at h <;> simpa using h
+  | getMut k' cf now v =>
+    simp only [Cache.step, Option.some.injEq] at hs; subst hs
+    have key : c.store.items.get k = some e' ∨ (k = k' ∧ e'.val = v) := by
+      unfold Cache.getMutWrite at he'
+      split at he'
+      · left; exact he'
+      · simp only [] at he'
+        split at he'
+        · left; simpa using he'
+        · simp only [Cache.met_store, Cache.ringPush_store] at he'
+          unfold Store.getMutWrite at he'
+          cases hl : c.store.lookup k' cf now with
+          | none => simp only [hl] at he'; left; exact he'
+          | some e0 =>
+            simp only [hl, KMap.get_set] at he'
+            split at he'
+            · rename_i hjk; right; exact ⟨hjk, by cases he'; rfl⟩
+            · left; exact he'
+    rcases key with h | ⟨h1, h2⟩
+    · exact absurd (fun _ => h) (fun f => keep f)
+    · subst h1; right; exact ⟨cf, now, v, rfl, h2⟩
+  | remove k' cf =>
+    simp only [Cache.step, Option.some.injEq] at hs; subst hs
+    exfalso; apply keep; intro h
+    unfold Cache.remove at h
+    split at h
+    · exact h
+    · simp only [] at h
+      have hres : ∀ x, (c.store.tryRemove k' cf).1.items.get k = some x → c.store.items.get k = some x := by
+        intro x hx
+        rw [Store.tryRemove_get] at hx
+        split at hx
+        · cases hx
+        · exact hx
+      cases hr : (c.store.tryRemove k' cf).2 with
+      | none => simp only [hr] at h; split at h <;> first | exact hres _ (by simpa using h) | (simpa using h)
+      | some e0 => simp only [hr] at h; split at h <;> first | exact hres _ (by simpa using h) | (simpa using h)
+  | waitEnq id =>
+    simp only [Cache.step, Option.some.injEq] at hs; subst hs
+    exfalso; apply keep; intro h
+    unfold Cache.waitEnq at h
+    split at h
+    · exact h
+    · split at h <;> exact h
+  | clearReq id =>
+    simp only [Cache.step, Option.some.injEq] at hs; subst hs
+    exfalso; apply keep; intro h
+    unfold Cache.clearReq at h; split at h <;> exact h
+  | closeBegin id =>
+    simp only [Cache.step, Option.some.injEq] at hs; subst hs
+    exfalso; apply keep; intro h
+    unfold Cache.closeBegin at h; split at h <;> exact h
+  | updateMaxCost mc =>
+    simp only [Cache.step, Option.some.injEq] at hs; subst hs
+    exfalso; exact keep (fun h => h)
+  | procItem est refills =>
+    simp only [Cache.step, Cache.procItem] at hs
+    split at hs
+    · cases hs
+    · split at hs
+      · cases hs
+      · rename_i it rest hb
+        simp only [Option.some.injEq] at hs; subst hs
+        have hf := admitPending_frame ({ c with buf := rest } : Cache)
+        exfalso; apply keep; intro h
+        cases it with
+        | wait w => simpa [Cache.handleItem, hf.1] using h
+        | update k' cost ext => simpa [Cache.handleItem, hf.1] using h
+        | delete k' cf =>
+          simp only [Cache.handleItem] at h
+          have : (({ c with buf := rest } : Cache).admitPending.store.tryRemove k' cf).1.items.get k = some e' := by
+            cases hr : (({ c with buf := rest } : Cache).admitPending.store.tryRemove k' cf).2 <;>
+              (simp only [hr] at h; split at h <;> simpa using h)
+          rw [Store.tryRemove_get] at this
+          split at this
+          · cases this
+          · rw [hf.1] at this; exact this
+        | new k' cf cost v exp =>
+          by_cases hk : k' = k
+          · subst hk
+            have hch : ((({ c with buf := rest } : Cache).admitPending).lfu.costs.get k').isSome = true := by
+              rw [hf.2.1]; exact hinv.resident_charged k' (by simp [he])
+            have hli : (({ c with buf := rest } : Cache).admitPending).lfu.Inv := by rw [hf.2.1]; exact hinv.lfuInv
+            rw [handleNew_charged_store _ su est refills k' cf cost v exp hli hch, hf.1] at h
+            exact h
+          · simp only [Cache.handleItem] at h
+            have hpre : ∀ (c2 : Cache), c2.store = ({ c with buf := rest } : Cache).admitPending.store ∨
+                c2.store = (({ c with buf := rest } : Cache).admitPending.store.tryInsert su k' v cf exp) →
+                c2.store.items.get k = some e' → c.store.items.get k = some e' := by
+              intro c2 hc2 hj2
+              rcases hc2 with hc2 | hc2
+              · rw [hc2, hf.1] at hj2; exact hj2
+              · rw [hc2] at hj2
+                rcases tryInsert_get _ su k' v cf exp k e' hj2 with h1 | ⟨h1, _⟩
+                · rw [hf.1] at h1; exact h1
+                · exact absurd h1.symm hk
+            split at h
+            · have h' := evictVictims_get _ _ k e' h
+              split at h'
+              · split at h'
+                · exact hpre _ (Or.inr (by simp)) h'
+                · exact hpre _ (Or.inr (by simp)) h'
+              · exact hpre _ (Or.inl (by simp)) h'
+            · split at h
+              · split at h
+                · exact hpre _ (Or.inr (by simp)) h
+                · exact hpre _ (Or.inr (by simp)) h
+              · exact hpre _ (Or.inl (by simp)) h
+  | procClear =>
+    simp only [Cache.step] at hs
+    obtain ⟨h1, _, _⟩ := procClear_empty c c' hs
+    rw [h1 k] at he'; cases he'
+  | procTick now order =>
+    simp only [Cache.step, Cache.procTick] at hs
+    split at hs
+    · cases hs
+    · simp only [Option.some.injEq] at hs; subst hs
+      exfalso; apply keep; intro h
+      have hd := deliverEvictions_frame
+        ((({ c with store := { c.store with em := (c.store.em.tryCleanup now).1 } } : Cache).sweepKeys now order []).2.reverse)
+        (({ c with store := { c.store with em := (c.store.em.tryCleanup now).1 } } : Cache).sweepKeys now order []).1
+      rw [hd.1] at h
+      simpa using sweepKeys_get order _ now [] k e' h
+  | procStop =>
+    simp only [Cache.step, Cache.procStop] at hs
+    split at hs
+    · cases hs
+    · simp only [Option.some.injEq] at hs; subst hs
+      exfalso; exact keep (fun h => h)
+  | policyWorker =>
+    simp only [Cache.step, Cache.policyWorkerStep] at hs
+    cases hp : c.pq with
+    | nil => simp [hp] at hs
+    | cons b rest =>
+      simp only [hp, Option.map_some, Option.some.injEq] at hs; subst hs
+      exfalso; exact keep (fun h => h)
+  | policyClose =>
+    simp only [Cache.step, Option.some.injEq] at hs; subst hs
+    exfalso; exact keep (fun h => h)
+
 -- non-vacuity -------------------------------------------------------------------------------------
 /-- a concrete run: insert key 3 with value 77, the processor applies it, the lookup returns 77 -/
 def exActs : List Act := [.insert 3 0 77 1 0 0 0 false, .procItem (fun _ => 0) []]
@@ -534,3 +755,4 @@ end Stretto.C02
 #print axioms Stretto.C02.after_remove_only_later_writes
 #print axioms Stretto.C02.remove_establishes
 #print axioms Stretto.C02.update_immediate
+#print axioms Stretto.C02.resident_value_changes_only_by_client_write
